@@ -45,7 +45,7 @@ func (self *ListRange) CheckListPreConstraints(r *ListRequest) (bool, error) {
 	if r.IsNavigation() {
 		return true, nil
 	}
-	if self.Selector.PathMatches(r.Base, r.Selection.Path) {
+	if self.selects(r.Base, r.Selection.Path) {
 		if r.First {
 			if self.EndRow != -1 && self.StartRow >= self.EndRow {
 				// empty window
@@ -58,4 +58,12 @@ func (self *ListRange) CheckListPreConstraints(r *ListRequest) (bool, error) {
 		}
 	}
 	return true, nil
+}
+
+// the window is for the rows of the selected list, not for lists nested in its rows
+func (self *ListRange) selects(base *Path, list *Path) bool {
+	if exact, ok := self.Selector.(interface{ PathMatchesExactly(*Path, *Path) bool }); ok {
+		return exact.PathMatchesExactly(base, list)
+	}
+	return self.Selector.PathMatches(base, list)
 }
